@@ -1,0 +1,16 @@
+//go:build verif
+
+// Contracts for the slipvc verifier (see /verif/DESIGN.md). Comment-only file.
+
+package gi
+
+// with-mutex-lock: the mutex is held while every body form is evaluated and
+// the lock balance at every return equals the balance at entry.
+//@ func gi.(*WithMutexLock).Call
+//@   property C07 C17
+//@   option eval-once
+//@   option forward-body-exits
+//@   at-eval held-in-body: $held == 1
+//@   ensures released: $held == 0
+//@   ensures body: forall k :: (0 <= k && k < $n) ==> ($eslot[k] == k + 1 && $escope[k] == s)
+//@   loop rangeindex: invariant body: $n == rangeindex + 1 && $held == 1 && (rangeindex >= 0 ==> $last == rangeindex + 1) && (rangeindex < 0 ==> $last == 0 - 1) && (forall k :: (0 <= k && k < $n) ==> ($eslot[k] == k + 1 && $escope[k] == s))
